@@ -79,7 +79,7 @@ theorem decTail_no_panic (env : Env) (t : Tail) (cnt : Option Nat) (bs : Bytes) 
   unfold decTail
   split
   · simp
-  · rename_i elt
+  · rename_i elt _ _
     have := decElems_no_panic env elt (cnt.getD 0) bs
     split <;> simp_all
   · have := decU32s_no_panic (cnt.getD 0) bs
